@@ -13,10 +13,11 @@ import (
 // expression budget and the two "impossible grammar literal" sites (the default of the dispatch in parseExpr, a rule
 // reference without a name) - and relies on the deferred handler of parse() to turn the budget panic into the final
 // error. Two rules follow:
-//   (1) the panic sites of the runtime are exactly these three (plus the class-name lookup that runs at package initialisation); a panic anywhere else is an outcome Parse does not
-//       deliver as an error (it escapes under Recover(false), and see (2));
-//   (2) nothing the deferred handler calls can panic: a panic raised while the handler runs is not recovered by
-//       anybody, so Parse neither returns nor reports the budget error.
+//
+//	(1) the panic sites of the runtime are exactly these three (plus the class-name lookup that runs at package initialisation); a panic anywhere else is an outcome Parse does not
+//	    deliver as an error (it escapes under Recover(false), and see (2));
+//	(2) nothing the deferred handler calls can panic: a panic raised while the handler runs is not recovered by
+//	    anybody, so Parse neither returns nor reports the budget error.
 func runtimePanicDiscipline(c *Ctx, rule string) {
 	r := c.R
 	nSites := 0
